@@ -228,20 +228,22 @@ C12v1(tag, b, v) ==
         corrupted == V1!Corrupted(base, elem, repl)
         (* a replacement that also pushes the line past 107 bytes may be blamed on the limit *)
         kinds == {V1!KindFor(elem)} \cup (IF Len(corrupted) > V1!MaxLen THEN {"HeaderTooLong"} ELSE {})
+        (* a multi-byte character after the CR: the byte entry point cuts inside it and may say so *)
+        kindsOf(e) == kinds \cup (IF elem = "lf" /\ Len(repl) > 1 /\ e \in {"v1b", "auto"} THEN {"InvalidUtf8"} ELSE {})
         check(e) ==
             LET o == v[e]
             IN  IF ~Applicable(v, e) THEN {}
                 ELSE IF o.k = "panic" THEN {}
                 ELSE IF IsOk(o) THEN {<< "C12", "corrupted-line-accepted", e >>}
                 ELSE IF o.inc THEN {<< "C12", "not-terminal", e >>}
-                ELSE IF o.e \notin kinds THEN {<< "C12", "wrong-kind", e >>}
+                ELSE IF o.e \notin kindsOf(e) THEN {<< "C12", "wrong-kind", e >>}
                 ELSE {}
         autoCheck ==
             LET o == v["auto"]
             IN  IF o.k = "panic" THEN {}
                 ELSE IF IsOk(o) THEN {<< "C12", "corrupted-line-accepted", "auto" >>}
                 ELSE IF o.inc THEN {<< "C12", "not-terminal", "auto" >>}
-                ELSE IF o.tag # "V1" \/ o.r.e \notin kinds THEN {<< "C12", "wrong-kind", "auto" >>}
+                ELSE IF o.tag # "V1" \/ o.r.e \notin kindsOf("auto") THEN {<< "C12", "wrong-kind", "auto" >>}
                 ELSE {}
     IN  IF ~qualifies \/ Len(b) # Len(corrupted) THEN [f |-> {}, nt |-> FALSE]
         ELSE IF b # corrupted THEN [f |-> {<< "BIND", "c12-input-is-not-the-corruption", "v1b" >>}, nt |-> FALSE]
